@@ -1,7 +1,7 @@
 (* C02 property theorems. This file contains only statements closed by
    [exact lemma] and Print Assumptions. *)
 From V Require Import Common.Base C02.Graph C02.Order C02.SpecESM C02.Wrap C02.Resolve C02.ResolveSpec
-  C02.DataUrl C02.SpecDataUrl C02.OrderProofs C02.OrderEsmProofs C02.ResolveProofs C02.WrapProofs C02.DataUrlProofs C02.ClassifyProofs C02.Emit C02.EmitProofs C02.ResolveChainProofs C02.ScanEsmProofs C02.ResolveDen C02.SpecDenProofs.
+  C02.DataUrl C02.SpecDataUrl C02.OrderProofs C02.OrderEsmProofs C02.ResolveProofs C02.WrapProofs C02.DataUrlProofs C02.ClassifyProofs C02.Emit C02.EmitProofs C02.ResolveChainProofs C02.ScanEsmProofs C02.ResolveDen C02.SpecDenProofs C02.StarHitsProofs C02.StarDenProofs.
 From Coq Require Import Permutation.
 
 (* every file of the chunk is emitted at most once ("every module body runs at most once") *)
@@ -217,3 +217,24 @@ Proof.
   inversion H; subst. exact (spec_resolve_is_den g rk Hr _ _ _ _ _ E).
 Qed.
 Print Assumptions resolve_set_revisit_harmless.
+
+(* addExportsForExportStar, per export alias, on every ranked graph: ResolvedExports[a] of a file
+   that does not export [a] itself is the fold (first hit = the export, later hits from another
+   file = PotentiallyAmbiguousExportStarRefs) of the list of hits of the star traversal, and the
+   hits denote exactly the candidate bindings of the set-free denotation - the same list
+   ECMA-262 ResolveExport classifies (resolve_set_revisit_harmless).
+   Still missing for resolve_is_spec_partial with export stars: matchImportWithExport's
+   all-results-equal test over these hits = classify_cands (mloop over main hit + ambiguous refs). *)
+Theorem resolved_exports_star_characterisation : forall g rk kinds o a,
+  ranked_all g rk = true ->
+  (forall i, ekind_eqb (kinds i) ECJS = false) ->
+  (forall i, aliases_unique (getm g i)) ->
+  m_lazy (getm g o) = false -> a <> 0 -> find_export a (m_exports (getm g o)) = None ->
+  ed_lookup a (resolved_of g kinds o) = fold_hits a None (hits g (S (length g)) a o []) /\
+  flat_map (hit_cands g rk) (hits g (S (length g)) a o []) = den g rk o a.
+Proof.
+  intros g rk kinds o a Hr Hk Hu Hl Ha Hf. split.
+  - rewrite (resolved_look g rk Hr kinds Hk Hu o a Hl), Hf. reflexivity.
+  - exact (star_hits_den g rk Hr kinds Hk Hu o a Ha Hf).
+Qed.
+Print Assumptions resolved_exports_star_characterisation.
